@@ -304,7 +304,7 @@ func first(a, _ []byte) []byte { return a }
 // class must have been zeroed and relinked before it is pooled (C12; the
 // obligations put_zero / put_unlinked are generated at every Put site).
 
-//@ spec refIs(ref, n, k) = (*ref).pointer == n && (*ref).tag == k && ref.obj != n && allocated(ref.obj) && ref.obj != nil
+//@ spec refIs(ref, n, k) = (*ref).pointer == n && (*ref).tag == k && ref.obj != n && allocated(ref.obj) && ref.obj != nil && inT(n)
 
 //@ func (*node256).addChild
 //@   requires n256 != nil && atype(n256) == typeid(node256) && Inv256(n256)
@@ -359,7 +359,7 @@ func first(a, _ []byte) []byte { return a }
 //@   ensures[replaced] (*ref).pointer == n4 || (fresh((*ref).pointer) && Zero4(n4))
 //@   ensures[frame] frame(n4, ref.obj, (*ref).pointer) && frameSlot(ref)
 
-//@ spec slotOK(ptr) = ptr.obj != (*ptr).pointer && allocated(ptr.obj) && ptr.obj != nil
+//@ spec slotOK(ptr) = ptr.obj != (*ptr).pointer && allocated(ptr.obj) && ptr.obj != nil && inT((*ptr).pointer)
 
 //@ func (*nodeRef).addChild
 //@   requires typeOK(*ptr) && InvRef(*ptr) && slotOK(ptr)
@@ -389,11 +389,13 @@ func first(a, _ []byte) []byte { return a }
 //@     invariant forall(x, 0, 256, n256.children[x].pointer == ite(x == b, nil, old(n256.children[x].pointer)) && n256.children[x].tag == old(n256.children[x].tag))
 //@     invariant n256.prefixLen == old(n256.prefixLen) && forall(j, 0, 10, n256.prefix[j] == old(n256.prefix[j]))
 //@     invariant n256.childrenLen == cntP(n256.children, 256) % 256 && n48.childrenLen == n256.childrenLen && n48.prefixLen == n256.prefixLen
+//@     invariant forall(x, 0, 256, implies(n256.children[x].pointer != nil, okRef(n256.children[x])))
 //@     invariant cntP(n48.children, 48) == pos && cntNZ(n48.keys, 256) == pos
 //@     invariant forall(j, 0, 48, implies(j >= pos, n48.children[j].pointer == nil))
 //@     invariant forall(x, 0, 256, n48.keys[x] == ite(x < i && n256.children[x].pointer != nil, cntP(n256.children, x) + 1, 0))
 //@     invariant forall(x, 0, 256, implies(x < i && n256.children[x].pointer != nil, n48.children[cntP(n256.children, x)].pointer == n256.children[x].pointer && n48.children[cntP(n256.children, x)].tag == n256.children[x].tag))
 //@     invariant forall(j, 0, 10, n48.prefix[j] == n256.prefix[j])
+//@     invariant forall(j, 0, 48, implies(n48.children[j].pointer != nil, okRef(n48.children[j])))
 //@     decreases 256 - i
 
 //@ func (*node48).deleteChild
@@ -416,6 +418,7 @@ func first(a, _ []byte) []byte { return a }
 //@     invariant forall(j, 0, 16, implies(j < children, n16.keys[j] < i && n48.keys[n16.keys[j]] != 0 && cntNZ(n48.keys, n16.keys[j]) == j && n16.children[j].pointer == n48.children[n48.keys[n16.keys[j]]-1].pointer && n16.children[j].tag == n48.children[n48.keys[n16.keys[j]]-1].tag))
 //@     invariant forall(x, 0, 256, implies(x < i && n48.keys[x] != 0, n16.keys[cntNZ(n48.keys, x)] == x))
 //@     invariant forall(j, 0, 15, implies(j + 1 < children, n16.keys[j] < n16.keys[j+1]))
+//@     invariant forall(j, 0, 48, implies(n48.children[j].pointer != nil, okRef(n48.children[j])))
 //@     decreases 256 - i
 
 //@ func (*node16).deleteChild
